@@ -618,6 +618,19 @@ MP("x-memo-hash-of-reversed-children", "C17", "R17.3", "features/fg1-2", "skepti
 MP("x-takewhile-predicate-ignores-stop", "C20", "R20.8", "refactors/ri3-4", "skepticoin/networking/local_peer.py",
    "        return self.running\n", "        return True\n")
 
+# canonicality decided by length (R07.6, second accepted form): the arithmetic it relies on is checked with it
+SER = "skepticoin/serialization.py"
+MP("x-vlq-by-length-counter-not-advanced", "C07", "R07.6", "features/ho6-4", SER,
+   "        consumed += 1\n", "        consumed = 1\n")
+MP("x-vlq-by-length-guard-one-sided", "C07", "R07.6", "features/ho6-4", SER,
+   "    if consumed != _vlq_length(result):", "    if consumed < _vlq_length(result):")
+MP("x-vlq-by-length-wrong-radix", "C07", ["R07.6", "R18.5"], "features/ho6-4", SER,
+   "        result *= 128\n", "        result *= 256\n")
+MP("x-vlq-by-length-stops-late", "C07", "R07.6", "features/ho6-4", SER,
+   "        if b < 128:\n            break\n", "        if b <= 128:\n            break\n")
+MP("x-vlq-by-length-other-length", "C07", "R07.6", "features/ho6-4", SER,
+   "    return (i.bit_length() // 7) + 1\n", "    return (i.bit_length() // 8) + 1\n")
+
 # ----------------------------------------------------------------------------------------------- round-5 rules
 M("x-late-bound-locator-rows", "C08", "RX.3", BS,
   "            for transaction in block.transactions:\n",
